@@ -26,6 +26,8 @@ Inductive iexp : Type :=
 | EVecVar (n : nat)               (* wN *)
 | ESlot (n : nat)                 (* itN : a shared iterator *)
 | EObj (n : nat)                  (* obN : a user-defined iterable whose iter() does real work *)
+| ERVar (n h : nat)               (* a Range VALUE built earlier and held h = 0: in the variable rgN | 1: in a vec, rgN[0] |
+                                     2: in a field, rgN.v | 3: in rgN and passed through a function, idf(rgN) *)
 | EMap (f : fn) (e : iexp)        (* e.iter().map(f) *)
 | EFilter (p : pr) (e : iexp).    (* e.iter().filter(p) *)
 
@@ -42,7 +44,9 @@ Inductive stmt : Type :=
 | SSetVec (n : nat) (xs : list value)        (* wN = [..]; *)
 | SCollect (e : iexp)                        (* pv(e.iter().collect()); *)
 | SReduce (g : rd) (init : value) (e : iexp)  (* print(sh(e.iter().reduce(g, init))); *)
-| SObj (n : nat) (k : okind) (items : list value) (z : Z). (* obN = Deck|Bag|VBag|Chained.new([..] [, z]); *)
+| SObj (n : nat) (k : okind) (items : list value) (z : Z)  (* obN = Deck|Bag|VBag|Chained.new([..] [, z]); *)
+| SRange (n h : nat) (a e : Z)               (* rgN = (a..e); | [(a..e)]; | Box.new((a..e)); | (a..e); *)
+| SPress (lo : Z) (k : nat).                 (* press(lo, k); builds the k other ranges lo..lo+1, .., lo..lo+k *)
 
 Record prog : Type := mkProg {
   p_fun : bool;        (* body inside fn main() (needed for return) or at top level *)
@@ -101,8 +105,9 @@ Definition marker (m : mstate) : mstate :=
 
 (* it0..it2 and ob0..ob2 (slots OBJ..OBJ+2) start as (0..0).iter() *)
 Definition OBJ : nat := 3.
-Definition init_heap : list iobj := repeat (ORangeIter 0 0 (-1)) 6.
-Definition init_m : mstate := mkM (mkStore init_heap [[]; []]) [0; 1; 2; 3; 4; 5] [0; 1] [0; 0; 0; 0; 0] [] [].
+Definition RG : nat := 6.
+Definition init_heap : list iobj := repeat (ORangeIter 0 0 (-1)) 9.
+Definition init_m : mstate := mkM (mkStore init_heap [[]; []]) [0; 1; 2; 3; 4; 5; 6; 7; 8] [0; 1] [0; 0; 0; 0; 0] [] [].
 
 (* <e>.iter(): the iterator object a for loop / adapter pulls from *)
 Fixpoint eval_iter (e : iexp) (m : mstate) : nat * mstate :=
@@ -118,6 +123,7 @@ Fixpoint eval_iter (e : iexp) (m : mstate) : nat * mstate :=
   | EVecVar n => alloc (OVecIter (nth n (wvars m) 0) 0) m
   | ESlot n => let '(i, s) := obj_iter (ms m) (nth n (slots m) 0) in (i, m_store m s)
   | EObj n => let '(i, s) := obj_iter (ms m) (nth (OBJ + n) (slots m) 0) in (i, m_store m s)
+  | ERVar n _ => let '(i, s) := obj_iter (ms m) (nth (RG + n) (slots m) 0) in (i, m_store m s)
   | EMap f e1 => let '(i, m1) := eval_iter e1 m in alloc (OMap f i) m1
   | EFilter p e1 => let '(i, m1) := eval_iter e1 m in alloc (OFilter p i) m1
   end.
@@ -213,6 +219,10 @@ Definition exec_stmt (rec : nat -> list stmt -> mstate -> ctl * mstate) (k ofuel
       | KChained => let '(vid, s1) := alloc_vec (ms m) items in alloc_obj s1 (OChained vid z)
       end in
     (CNormal, m_slots (m_store m s) (upd (slots m) (OBJ + n) id))
+  | SRange n _ a e =>
+    let '(id, s) := alloc_obj (ms m) (ORange a e) in
+    (CNormal, m_slots (m_store m s) (upd (slots m) (RG + n) id))
+  | SPress _ _ => (CNormal, m)     (* other Range objects are built; no existing object changes *)
   end.
 
 Fixpoint exec (fuel ofuel : nat) (loc : bool) (d : nat) (ss : list stmt) (m : mstate) : ctl * mstate :=
@@ -282,7 +292,7 @@ Definition s_vars (s : sstate) (v : list value) : sstate :=
   mkS (sheap s) (svecs s) (sslots s) (swvars s) (scnts s) v (sout s).
 
 Definition init_s : sstate :=
-  mkS (repeat (SRem [] TStop) 6) [[]; []] [0; 1; 2; 3; 4; 5] [0; 1] [0; 0; 0; 0] [VNil; VNil; VNil; VNil] [].
+  mkS (repeat (SRem [] TStop) 9) [[]; []] [0; 1; 2; 3; 4; 5; 6; 7; 8] [0; 1] [0; 0; 0; 0] [VNil; VNil; VNil; VNil] [].
 
 Definition TRUNC : nat := 40.
 
@@ -334,6 +344,11 @@ Definition spec_iter (mut full : bool) (e : iexp) (s : sstate) : option (nat * s
       | _ => Some (s_alloc (s_heap s (upd (sheap s) id (SDeckS cards [] full)))
                            (SRem (chain_spec ops (until_stop cards)) TStop))
       end
+    | _ => None
+    end
+  | ERVar n _ =>
+    match nth_error (sheap s) (nth (RG + n) (sslots s) 0) with
+    | Some (SFresh l) => fresh l TStop
     | _ => None
     end
   | _ => None
@@ -465,6 +480,11 @@ Fixpoint sexec (fuel : nat) (mut : bool) (d : nat) (ss : list stmt) (s : sstate)
                    end in
           let '(id, s1) := s_alloc s x in
           (CNormal, s_slots s1 (upd (sslots s1) (OBJ + n) id))
+        | SRange n _ a e =>
+          (* a range value is immutable: its elements depend only on its bounds *)
+          let '(id, s1) := s_alloc s (SFresh (elements (SrcRange a e))) in
+          (CNormal, s_slots s1 (upd (sslots s1) (RG + n) id))
+        | SPress _ _ => (CNormal, s)
         end in
       match r with
       | (CNormal, s') => sexec k mut d rest s'
@@ -556,6 +576,10 @@ Definition prelude : string :=
   "  #[constructor] fn new(self, items, k) { self.items = items; self.k = k; }" ++ nl ++
   "  fn iter(self) { var k = self.k; return self.items.iter().filter(|x| iseven(x)).map(|x| addk(x, k)); }" ++ nl ++
   "}" ++ nl ++
+  "class Box { #[constructor] fn new(self, v) { self.v = v; } }" ++ nl ++
+  "fn idf(x) { return x; }" ++ nl ++
+  "fn press(lo, n) { var i = 1; while i <= n { var t = (lo..(lo + i)); i = i + 1; } }" ++ nl ++
+  "fn pid(x, lo, n) { press(lo, n); return x; }" ++ nl ++
   "fn sh(v) {" ++ nl ++
   "  if v.derives(StopIter) { if v.derives(MyStop) { return " ++ dq ++ "<sub>" ++ dq ++ "; } return " ++ dq ++ "<stop>" ++ dq ++ "; }" ++ nl ++
   "  if v == nil { return " ++ dq ++ "nil" ++ dq ++ "; }" ++ nl ++
@@ -588,6 +612,7 @@ Definition r_fn (f : fn) : string :=
   | MulK k => "|x| mulk(x, " ++ show_Z k ++ ")"
   | Tag t => "|x| tag(x, " ++ r_str t ++ ")"
   | ConstK k => "|x| " ++ show_Z k
+  | PressF lo n => "|x| pid(x, " ++ show_Z lo ++ ", " ++ show_nat n ++ ")"
   end.
 Definition r_pr (p : pr) : string :=
   match p with
@@ -606,7 +631,7 @@ Definition r_rd (g : rd) : string :=
 (* does the VALUE of the expression derive Iter (so that it has map / filter / collect / reduce itself)? *)
 Definition iterish (e : iexp) : bool :=
   match e with
-  | EVec _ | ETup _ | ERange _ _ | EStr _ | EVecVar _ => false
+  | EVec _ | ETup _ | ERange _ _ | EStr _ | EVecVar _ | ERVar _ _ => false
   | _ => true
   end.
 Definition dot_iter (dir : bool) (e : iexp) : string := if dir && iterish e then "" else ".iter()".
@@ -623,6 +648,13 @@ Fixpoint r_iexp (dir : bool) (e : iexp) : string :=
   | EVecVar n => "w" ++ show_nat n
   | ESlot n => "it" ++ show_nat n
   | EObj n => "ob" ++ show_nat n
+  | ERVar n h =>
+    match h with
+    | 0 => "rg" ++ show_nat n
+    | 1 => "rg" ++ show_nat n ++ "[0]"
+    | 2 => "rg" ++ show_nat n ++ ".v"
+    | _ => "idf(rg" ++ show_nat n ++ ")"
+    end
   | EMap f e1 => r_iexp dir e1 ++ dot_iter dir e1 ++ ".map(" ++ r_fn f ++ ")"
   | EFilter p e1 => r_iexp dir e1 ++ dot_iter dir e1 ++ ".filter(" ++ r_pr p ++ ")"
   end.
@@ -661,6 +693,15 @@ Fixpoint r_stmts (fuel : nat) (loc dir : bool) (d : nat) (ss : list stmt) : stri
         | KVBag => "VBag.new([" ++ r_values items ++ "])"
         | KChained => "Chained.new([" ++ r_values items ++ "], " ++ show_Z z ++ ")"
         end ++ ";" ++ nl
+      | SRange n h a e =>
+        let r := "(" ++ show_Z a ++ ".." ++ show_Z e ++ ")" in
+        "rg" ++ show_nat n ++ " = " ++
+        match h with
+        | 1 => "[" ++ r ++ "]"
+        | 2 => "Box.new(" ++ r ++ ")"
+        | _ => r
+        end ++ ";" ++ nl
+      | SPress lo n => "press(" ++ show_Z lo ++ ", " ++ show_nat n ++ ");" ++ nl
       end) ss)
   end.
 
@@ -668,6 +709,7 @@ Definition decls : string :=
   "var c0 = 0; var c1 = 0; var c2 = 0; var c3 = 0;" ++ nl ++
   "var it0 = (0..0).iter(); var it1 = (0..0).iter(); var it2 = (0..0).iter();" ++ nl ++
   "var ob0 = (0..0).iter(); var ob1 = (0..0).iter(); var ob2 = (0..0).iter();" ++ nl ++
+  "var rg0 = nil; var rg1 = nil; var rg2 = nil;" ++ nl ++
   "var w0 = []; var w1 = [];" ++ nl.
 Definition tail_locals : string := "var z1 = 111; var z2 = 222; print(z1); print(z2);" ++ nl.
 
@@ -710,6 +752,7 @@ Definition p_fn (ts : list N) : fn * list N :=
   | 1%N :: k :: r => (MulK (zof k), r)
   | 2%N :: r => let '(x, r') := p_bytes r in (Tag x, r')
   | 3%N :: k :: r => (ConstK (zof k), r)
+  | 4%N :: lo :: n :: r => (PressF (zof lo) (N.to_nat n), r)
   | _ => (AddK 0, [])
   end.
 Definition p_pr (ts : list N) : pr * list N :=
@@ -736,6 +779,7 @@ Fixpoint p_iexp (fuel : nat) (ts : list N) : iexp * list N :=
     | 7%N :: n :: r => (EVecVar (N.to_nat n), r)
     | 8%N :: n :: r => (ESlot (N.to_nat n), r)
     | 11%N :: n :: r => (EObj (N.to_nat n), r)
+    | 12%N :: n :: h :: r => (ERVar (N.to_nat n) (N.to_nat h), r)
     | 9%N :: r => let '(f, r1) := p_fn r in let '(e, r2) := p_iexp k r1 in (EMap f e, r2)
     | 10%N :: r => let '(p, r1) := p_pr r in let '(e, r2) := p_iexp k r1 in (EFilter p e, r2)
     | _ => (EVec [], [])
@@ -777,6 +821,8 @@ Fixpoint p_stmt (fuel : nat) (ts : list N) : stmt * list N :=
       | z :: r2 => (SObj (N.to_nat n) (match kd with 0%N => KDeck | 1%N => KBag | 2%N => KVBag | _ => KChained end) x (zof z), r2)
       | [] => (SBreak, [])
       end
+    | 15%N :: n :: h :: a :: e :: r => (SRange (N.to_nat n) (N.to_nat h) (zof a) (zof e), r)
+    | 16%N :: lo :: n :: r => (SPress (zof lo) (N.to_nat n), r)
     | _ => (SBreak, [])
     end
   end.
